@@ -714,6 +714,53 @@ pub fn lookup(name: &str) -> Option<OpFn> {
             o.extend(diff(Matrix4::from(PlanarFov { fovy, aspect, height: h, near, far }), m));
             ok(o)
         },
+        // planar rejects exactly when the focal point -(h/2)cot(fovy/2) lies between the planes,
+        // whichever of near / far is the smaller (the other preconditions hold for the inputs used)
+        "o.proj.planar_focal" => |a| {
+            let (fovy, aspect, h, near, far) = (a.rad(), a.x(), a.x(), a.x(), a.x());
+            let two = X::int(2);
+            let t = Rad::tan(fovy / two);
+            if t.val().is_zero() || h.val().is_zero() || near.val() == far.val() { return Out::Skip; }
+            let focal = -(X::int(1) / (t * two / h));
+            let (lo, hi) = if near.val().cmp(&far.val()) == std::cmp::Ordering::Less { (near, far) } else { (far, near) };
+            let between = focal.val().cmp(&lo.val()) != std::cmp::Ordering::Less && focal.val().cmp(&hi.val()) != std::cmp::Ordering::Greater;
+            let panicked = std::panic::catch_unwind(std::panic::AssertUnwindSafe(|| planar(fovy, aspect, h, near, far))).is_err();
+            Out::Ok(vec![Val::B(panicked == between)])
+        },
+        // Matrix3 as a 2-D transform (affine: two columns + translation)
+        "o.m3.transform2" => |a| {
+            let aff = |a: &mut Args| {
+                let (c0, c1, t) = (a.v2(), a.v2(), a.v2());
+                Matrix3::from_cols(c0.extend(X::int(0)), c1.extend(X::int(0)), t.extend(X::int(1)))
+            };
+            let (m, n, p, v) = (aff(a), aff(a), a.p2(), a.v2());
+            type T3 = Matrix3<X>;
+            let tp = |m: &T3, p| <T3 as Transform<Point2<X>>>::transform_point(m, p);
+            let tv = |m: &T3, v| <T3 as Transform<Point2<X>>>::transform_vector(m, v);
+            let c = <T3 as Transform<Point2<X>>>::concat(&m, &n);
+            let mut cs = m;
+            <T3 as Transform<Point2<X>>>::concat_self(&mut cs, &n);
+            let mut r = diff(tp(&c, p), tp(&m, tp(&n, p)));
+            r.extend(diff(tv(&c, v), tv(&m, tv(&n, v))));
+            r.extend(diff(c, m * n));
+            r.extend(diff(cs, m * n));
+            let one: T3 = One::one();
+            r.extend(diff(tp(&one, p), p));
+            r.extend(diff(tv(&one, v), v));
+            // vectors are not displaced
+            r.extend(diff(tv(&Matrix3::from_translation(v), v), v));
+            match (<T3 as Transform<Point2<X>>>::inverse_transform(&m), m.invert()) {
+                (Some(i), Some(j)) => {
+                    r.extend(diff(i, j));
+                    r.extend(diff(tp(&i, tp(&m, p)), p));
+                    r.extend(diff(tv(&i, tv(&m, v)), v));
+                    match <T3 as Transform<Point2<X>>>::inverse_transform_vector(&m, v) { Some(w) => r.extend(diff(w, tv(&i, v))), None => r.push(X::int(1)) }
+                }
+                (None, None) => r.push(m.determinant()),
+                _ => r.push(X::int(1)),
+            }
+            ok(r)
+        },
         // ---------------------------------------------------------------- C01 constructors
         "o.m4.constructors" => |a| {
             let (t, p, v, s, x, y, z) = (a.v3(), a.p3(), a.v3(), a.x(), a.x(), a.x(), a.x());
@@ -840,7 +887,7 @@ pub fn names() -> Vec<String> {
     let mut v: Vec<String> = ["o.v3.lagrange", "o.v3.cross_cross", "o.v3.cross_orth", "o.v.dot_bilinear",
         "o.m4.constructors", "o.m3.constructors", "o.m.embed", "o.p3.homogeneous",
         "o.q.algebra", "o.q.invert", "o.q.rotate", "o.q.compose", "o.q.same_rotation", "o.q.roundtrip",
-        "o.v1.metric", "o.v2.metric", "o.v3.metric", "o.v4.metric", "o.q.metric", "o.arc.special", "o.lerp", "o.nlerp.exact", "o.look.rigid", "o.look.2d", "o.euler.product", "o.rot.axis_angle", "o.rad.modular", "o.deg.modular", "o.angle.convert", "o.proj.ortho", "o.proj.frustum", "o.proj.perspective", "o.proj.planar", "o.dq.matrix", "o.db2.matrix", "o.m4.transform", "o.m3.transform",
+        "o.v1.metric", "o.v2.metric", "o.v3.metric", "o.v4.metric", "o.q.metric", "o.arc.special", "o.lerp", "o.nlerp.exact", "o.look.rigid", "o.look.2d", "o.euler.product", "o.rot.axis_angle", "o.rad.modular", "o.deg.modular", "o.angle.convert", "o.proj.ortho", "o.proj.frustum", "o.proj.perspective", "o.proj.planar", "o.dq.matrix", "o.db2.matrix", "o.m4.transform", "o.m3.transform", "o.m3.transform2", "o.proj.planar_focal",
         "o.dq.laws", "o.dq.inverse", "o.db3.laws", "o.db3.inverse", "o.db2.laws", "o.db2.inverse"]
         .iter()
         .map(|s| s.to_string())
